@@ -59,7 +59,7 @@ class Ctx:
 
     # the thorough tier of the fast checks explores several times more cases (wall time stays within minutes)
     THOROUGH_MULT = {'C01': 4, 'C02': 4, 'C03': 2, 'C05': 4, 'C07': 2, 'C08': 4, 'C09': 5, 'C10': 3, 'C14': 4, 'C15': 3,
-                     'C16': 4, 'C17': 4, 'C18': 4, 'C12': 2, 'C20': 2}
+                     'C16': 4, 'C17': 4, 'C18': 4, 'C12': 2}
 
     def scale(self, quick: int, thorough: int) -> int:
         return quick if self.quick else thorough * self.THOROUGH_MULT.get(self.prop, 1)
